@@ -79,7 +79,10 @@ fn record_stats(ctx: &mut Ctx, st: &crate::sched::ExploreStats, bound: Option<u3
     }
     if st.capped {
         ctx.rep.count("sched.capped_explorations", 1);
-        ctx.rep.notes.push(format!("{label}: execution cap hit - not exhaustive for this case"));
+        ctx.rep.notes.push(format!("{label}: execution / time / memory cap hit - not exhaustive for this case; every schedule with at most {:?} preemptions was executed", st.completed_bound));
+    }
+    if let Some(b) = st.completed_bound {
+        ctx.rep.set_max(&format!("sched.{label}.completed_preemption_rounds_max"), b as u64 + 1);
     }
     match bound {
         Some(b) => ctx.rep.set_max(&format!("sched.{label}.preemption_bound_max"), b as u64),
